@@ -140,8 +140,8 @@ pub fn behaviour() -> Behaviour {
         cfg,
         adjust: no_adjust,
         render,
-        quick: 500,
-        thorough: 10000,
+        quick: 1500,
+        thorough: 20000,
         batch: 25,
         assumptions: &["a suffixed numeric literal on a primitive numeric field of another type is deliberately not generated (see DESIGN.md)"],
     }
